@@ -103,6 +103,34 @@ var c10Named = []struct {
 	{"SELECT id, SPIN.fx(1, a DIV (id - 2)) FROM t", false},
 	{"SELECT id, SPINASYNC.fx(1, `n[1].v`) FROM t", false},
 	{"SELECT id, ASYNC.fx(1, a DIV (id - 2)) AS y FROM t", false},
+	{"SELECT id, SUBSTR(s, -5, 100) AS x FROM t", false},
+	{"SELECT id, SUBSTR(s, 2, -1) AS x, SUBSTR(s, 99, 1) AS y, SUBSTR(s, 0, 0) AS z FROM t", false},
+	{"SELECT id, SUBSTR(s, 1.5, 2.5) AS x FROM t", false},
+	{"SELECT id, ELEMENTAT(n, 99) AS x FROM t", false},
+	{"SELECT id, ELEMENTAT(n, -1) AS x, ELEMENTAT(n, 1.5) AS y FROM t", false},
+	{"SELECT id, FIRST(s) AS x, LAST(a) AS y, UNWIND(a) AS z FROM t", false},
+	{"SELECT id FROM t LIMIT 0", false},
+	{"SELECT id FROM t LIMIT 2 OFFSET 99", false},
+	{"SELECT id FROM t LIMIT 99 OFFSET 2", false},
+	{"SELECT id FROM t LIMIT 1.5", false},
+	{"SELECT id FROM t WHERE s LIKE '('", false},
+	{"SELECT id FROM t WHERE s LIKE '[' OR s LIKE '\\\\' OR s LIKE '*' OR s LIKE '+?'", false},
+	{"SELECT id, a / 0 AS x, a % 0 AS y, a DIV 0 AS z FROM t", false},
+	{"SELECT id, 9223372036854775807 + 1 AS x, -9223372036854775808 - 1 AS y, 1e308 * 10 AS z FROM t", false},
+	{"SELECT id, a << 100 AS x, a >> -1 AS y, ~a AS z FROM t", false},
+	{"SELECT ((((((((((((((((((((((((((((((((((((((((((((((((((((((((((((a)))))))))))))))))))))))))))))))))))))))))))))))))))))))))))) AS x FROM t", false},
+	{"SELECT CASE WHEN a > 0 THEN CASE WHEN a > 0 THEN CASE WHEN a > 0 THEN CASE WHEN a > 0 THEN CASE WHEN a > 0 THEN CASE WHEN a > 0 THEN CASE WHEN a > 0 THEN CASE WHEN a > 0 THEN CASE WHEN a > 0 THEN CASE WHEN a > 0 THEN CASE WHEN a > 0 THEN CASE WHEN a > 0 THEN CASE WHEN a > 0 THEN CASE WHEN a > 0 THEN CASE WHEN a > 0 THEN CASE WHEN a > 0 THEN CASE WHEN a > 0 THEN CASE WHEN a > 0 THEN CASE WHEN a > 0 THEN CASE WHEN a > 0 THEN CASE WHEN a > 0 THEN CASE WHEN a > 0 THEN CASE WHEN a > 0 THEN CASE WHEN a > 0 THEN CASE WHEN a > 0 THEN CASE WHEN a > 0 THEN CASE WHEN a > 0 THEN CASE WHEN a > 0 THEN CASE WHEN a > 0 THEN CASE WHEN a > 0 THEN CASE WHEN a > 0 THEN CASE WHEN a > 0 THEN CASE WHEN a > 0 THEN CASE WHEN a > 0 THEN CASE WHEN a > 0 THEN CASE WHEN a > 0 THEN CASE WHEN a > 0 THEN CASE WHEN a > 0 THEN CASE WHEN a > 0 THEN CASE WHEN a > 0 THEN 1 ELSE 0 END ELSE 0 END ELSE 0 END ELSE 0 END ELSE 0 END ELSE 0 END ELSE 0 END ELSE 0 END ELSE 0 END ELSE 0 END ELSE 0 END ELSE 0 END ELSE 0 END ELSE 0 END ELSE 0 END ELSE 0 END ELSE 0 END ELSE 0 END ELSE 0 END ELSE 0 END ELSE 0 END ELSE 0 END ELSE 0 END ELSE 0 END ELSE 0 END ELSE 0 END ELSE 0 END ELSE 0 END ELSE 0 END ELSE 0 END ELSE 0 END ELSE 0 END ELSE 0 END ELSE 0 END ELSE 0 END ELSE 0 END ELSE 0 END ELSE 0 END ELSE 0 END ELSE 0 END AS x FROM t", false},
+	{"SELECT * FROM (SELECT * FROM (SELECT * FROM (SELECT * FROM (SELECT * FROM (SELECT * FROM (SELECT * FROM (SELECT * FROM (SELECT * FROM (SELECT * FROM (SELECT * FROM (SELECT * FROM (SELECT * FROM (SELECT * FROM (SELECT * FROM (SELECT * FROM (SELECT * FROM (SELECT * FROM (SELECT * FROM (SELECT * FROM (SELECT * FROM (SELECT * FROM (SELECT * FROM (SELECT * FROM (SELECT * FROM (SELECT id FROM t) d) d) d) d) d) d) d) d) d) d) d) d) d) d) d) d) d) d) d) d) d) d) d) d) d", false},
+	{"SELECT id FROM t WHERE NOT NOT NOT NOT NOT NOT NOT NOT NOT NOT NOT NOT NOT NOT NOT NOT NOT NOT NOT NOT NOT NOT NOT NOT NOT NOT NOT NOT NOT NOT NOT NOT NOT NOT NOT NOT NOT NOT NOT NOT NOT NOT NOT NOT NOT NOT NOT NOT NOT NOT NOT NOT NOT NOT NOT NOT NOT NOT NOT NOT NOT NOT NOT NOT NOT NOT NOT NOT NOT NOT NOT NOT NOT NOT NOT NOT NOT NOT NOT NOT f", false},
+	{"SELECT id, CHANGETYPE(a, 'nosuchtype') AS x, CHANGETYPE(n, 'double') AS y FROM t", false},
+	{"SELECT id, HASH(a, 'nosuch') AS x, ENCODE(s, 'nosuch') AS y, DECODE(s, 'base64') AS z FROM t", false},
+	{"SELECT id, CONSTANT('nosuch') AS x, DATERANGE(1, 2) AS y, TIMESTAMP() AS z FROM t", false},
+	{"SELECT id, FUSE(1) FROM t", false},
+	{"SELECT id, FUSE(n) FROM t", false},
+	{"SELECT id, IF(1, 2) AS x, IF() AS y FROM t", false},
+	{"SELECT id, CONCAT() AS x, ARRAY() AS y, SUM() AS z FROM t", false},
+	{"SELECT id, `n[(99999999999999999999:1)]` AS x FROM t", false},
+	{"SELECT id, `n[-99999999999]` AS x, `n[1e3]` AS y FROM t", false},
 	{"SELECT DISTINCT (SELECT v FROM n) AS s, * FROM t", false},
 	{"SELECT DISTINCT *, (SELECT ip FROM `<-meta`) AS m FROM t", false},
 	{"SELECT DISTINCT id, (SELECT v, (SELECT ip FROM `<-<-meta`) AS ip FROM n) AS s, * FROM t", false},
